@@ -1,6 +1,7 @@
 //! C20 stress oracle: the real `Tracer` state behind its `RwLock`, a publisher thread applying
 //! rounds exactly as the tracer thread does (`verif_apply_round` = `handler`), reader threads
-//! calling `snapshot()` and a thread calling `clear()`.  Every snapshot must equal a whole number
+//! calling `snapshot()` and a thread calling `clear()`; the publisher also records an error every 16
+//! rounds (`verif_handle_error` = `handle_error`).  Every snapshot must equal a whole number
 //! of consecutive rounds applied to an empty state.  (Schedules are sampled, not enumerated: the
 //! deciding argument is the Lean theorem over the translated lock programs.)
 use crate::util::{Rng, Run};
@@ -94,6 +95,7 @@ pub fn run(rng: &mut Rng, thorough: bool, _corpus: &[String]) -> Run {
     let floor = Arc::new(AtomicU64::new(0));
     let failures: Arc<Mutex<Vec<String>>> = Arc::new(Mutex::new(vec![]));
     let rounds_done = AtomicU64::new(0);
+    let mut errors_recorded = 0u64;
     let seed = rng.next();
     let started = SystemTime::now();
     std::thread::scope(|sc| {
@@ -134,6 +136,7 @@ pub fn run(rng: &mut Rng, thorough: bool, _corpus: &[String]) -> Run {
         // the readers), bounded by a wall-clock cap
         let want: u64 = if thorough { 500_000 } else { 50_000 };
         let mut k = 0u64;
+        let err_text = "simulated failure ".repeat(64);
         while (k < rounds || checked.load(Ordering::Relaxed) < want)
             && started.elapsed().map_or(true, |d| d.as_secs() < if thorough { 600 } else { 120 })
         {
@@ -141,6 +144,12 @@ pub fn run(rng: &mut Rng, thorough: bool, _corpus: &[String]) -> Run {
             tracer.verif_apply_round(&Round::new(&probes, TimeToLive(HOPS), CompletionReason::TargetFound));
             applied.store(k + 1, Ordering::SeqCst);
             k += 1;
+            // the tracer thread records an error (`handle_error`, what `Tracer::run` does when the run
+            // fails) while other threads read and clear: recording must not resurrect cleared rounds
+            if k % 16 == 0 {
+                let _ = tracer.verif_handle_error(trippy_core::verif::Error::Other(err_text.clone()));
+                errors_recorded += 1;
+            }
             if k % 8 == 0 { std::thread::yield_now(); }
         }
         rounds_done.store(k, Ordering::Relaxed);
@@ -151,6 +160,7 @@ pub fn run(rng: &mut Rng, thorough: bool, _corpus: &[String]) -> Run {
     }
     *run.stats.entry("snapshots_checked".into()).or_default() = checked.load(Ordering::Relaxed);
     *run.stats.entry("clears".into()).or_default() = clears.load(Ordering::Relaxed);
+    *run.stats.entry("errors_recorded".into()).or_default() = errors_recorded;
     let rounds = rounds_done.load(Ordering::Relaxed);
     *run.stats.entry("rounds_applied".into()).or_default() = rounds;
     *run.stats.entry("wall_ms".into()).or_default() = started.elapsed().map_or(0, |d| d.as_millis() as u64);
